@@ -99,7 +99,7 @@ func NewSimReader(b []byte, s Schedule, c *core.Clock) *SimReader {
 	if c == nil {
 		c = &core.Clock{}
 	}
-	return &SimReader{B: b, Sched: s, Clock: c, FailErr: &InjectedError{ID: 1}}
+	return &SimReader{B: b, Sched: s.normalized(), Clock: c, FailErr: &InjectedError{ID: 1}}
 }
 
 // Offset is the number of bytes handed to the caller so far.
@@ -449,4 +449,32 @@ func (s Schedule) FitTo(n int) Schedule {
 	}
 	st = append(st, *term)
 	return Schedule{Steps: st, Short: s.Short}
+}
+
+// normalized merges consecutive zero-read steps (shrinking or cutting a
+// schedule can make them adjacent) so that no more than 99 empty reads occur
+// in a row: 100 is the documented io.ErrNoProgress bound.
+func (s Schedule) normalized() Schedule {
+	out := Schedule{Short: s.Short}
+	for _, st := range s.Steps {
+		if st.Op == "w" && st.N <= 0 {
+			continue
+		}
+		if st.Op == "z" {
+			if st.N > 99 {
+				st.N = 99
+			}
+			if n := len(out.Steps); n > 0 && out.Steps[n-1].Op == "z" {
+				if out.Steps[n-1].N < st.N {
+					out.Steps[n-1].N = st.N
+				}
+				continue
+			}
+			if st.N <= 0 {
+				continue
+			}
+		}
+		out.Steps = append(out.Steps, st)
+	}
+	return out
 }
